@@ -39,7 +39,8 @@ CONSTANTS MaxFmt,      \* formats have 1..MaxFmt symbols
 Sym == {"{", "}", "\\", "t", "M", ">H", "?q", "~c", "U"}
 \* adversarial request values (cfg: Values <- AdvValues): placeholder syntax, escapes, lone braces
 AdvValues == { <<"t">>, <<"{", "M", "}">>, <<"{", ">H", "}">>, <<"{", "U", "}">>, <<"\\", "{">>, <<"}">>, <<"{">>,
-               <<"t", "\\">> }
+               <<"t", "\\">>,
+               <<"%">> }     \* "%" stands for the bytes "%s": text that means something to a later formatting pass
 BS == "\\"
 
 RECURSIVE FmtsOfLen(_)
